@@ -52,8 +52,14 @@ def check_exhaustive(run, A, qual, label, class_dim_of, want_loops=1, rule='R-SE
         run.check(r['best_updated_with_candidate'] and r['arg_updated_with_loop_var'], rule, f'{label}: best value and best permutation updated together', where, '',
                   f'paired update broken (value := candidate: {r["best_updated_with_candidate"]}, argument := loop variable: {r["arg_updated_with_loop_var"]})',
                   construct=f'{rule}::{qual}::paired-update')
-        run.check(r['candidate_from_loop_var'], rule, f'{label}: candidate value computed from the enumerated permutation', where, '', 'the candidate does not depend on the loop variable',
-                  construct=f'{rule}::{qual}::candidate')
+        cand0 = strip_views(r['cand']) if isinstance(r.get('cand'), T) else None
+        if not r['candidate_from_loop_var'] and cand0 is not None and cand0.op == 'mu':
+            # the candidate is accumulated by an inner loop (score = score + matrix[row, column] over enumerate(permutation)): its dependence on the permutation runs through
+            # that loop - not read here
+            run.unresolved(rule, f'{label}: candidate value computed from the enumerated permutation', where, 'the candidate is accumulated in an inner loop')
+        else:
+            run.check(r['candidate_from_loop_var'], rule, f'{label}: candidate value computed from the enumerated permutation', where, '', 'the candidate does not depend on the loop variable',
+                      construct=f'{rule}::{qual}::candidate')
         run.check(not r['early_exit'], rule, f'{label}: no early exit from the search', where, '', 'break / continue / return inside the exhaustive search', construct=f'{rule}::{qual}::early-exit')
     return reps
 
@@ -288,6 +294,11 @@ def check_apply_mapping(run, A):
         elif newaxis_insertions(ind) is not None:
             base_ = strip_views(newaxis_insertions(ind)[0])
         ok = src.op == 'param' and src.args[0] == 'mask' and ax == 0 and base_.op == 'param' and base_.args[0] == 'mapping' and base_ is not ind
+        if not ok and src.op == 'param' and src.args[0] == 'mask' and ax == 0 and is_call_to(ind, 'numpy.reshape') and strip_views(call_arg(ind, 0)).op == 'param' \
+                and strip_views(call_arg(ind, 0)).args[0] == 'mapping':
+            # the mapping reshaped to trailing unit axes with a shape that is computed ((K, F) + (1,) * (mask.ndim - 2)): the same gather if the shape is what it seems - not decided
+            run.unresolved('R-PERM', 'apply_mapping: pure gather mask[mapping, range(F)]', fn.loc(), 'take_along_axis(mask, mapping.reshape(<computed shape>), axis=0): the index layout is not folded')
+            return
     def _sub_root(x):
         x = strip_views(x)
         while x.op == 'sub':
@@ -492,6 +503,23 @@ def check_calculate_mappings(run, A):
                 first, second = parts
                 ok_app = is_identity_columns(first) and call_parts(strip_views(second))[0] == P + '_mapping_from_score_matrix' and const_val(call_arg(root, None, 'axis')) in (-1, 1)
         st = [e for e in g.events if e.kind == 'store']
+        pre = [e for e in st if not e.loops]
+        root0 = root
+        while isinstance(root0, T) and root0.op == 'store':
+            root0 = strip_views(root0.args[0])
+        if not ok_app and is_call_to(root0, 'numpy.empty', 'numpy.zeros', 'numpy.empty_like', 'numpy.zeros_like') and len(pre) == 2:
+            # mapping = np.empty((K, F)); mapping[:, 0] = arange(K); mapping[:, 1:] = <adjacent-bin assignments>: the identity column prepended by two stores
+            def col_index(e_):
+                ix = e_.term.args[1]
+                its = list(ix.args[0]) if ix.op == 'tuple' else []
+                return its if len(its) == 2 and its[0].op == 'slice' and all(const_val(y) is None for y in its[0].args) else None
+            first = [e_ for e_ in pre if col_index(e_) is not None and const_val(col_index(e_)[1]) == 0 and is_call_to(strip_views(e_.term.args[2]), 'numpy.arange')]
+            tail_ = [e_ for e_ in pre if col_index(e_) is not None and col_index(e_)[1].op == 'slice' and const_val(col_index(e_)[1].args[0]) == 1
+                     and const_val(col_index(e_)[1].args[1]) is None and const_val(col_index(e_)[1].args[2]) is None
+                     and call_parts(strip_views(e_.term.args[2]))[0] == P + '_mapping_from_score_matrix']
+            if len(first) == 1 and len(tail_) == 1:
+                ok_app = True
+                st = [e for e in st if e.loops]
         if len(st) == 1:
             base, idx, val = st[0].term.args
             v = strip_views(val)
@@ -513,11 +541,12 @@ def check_calculate_mappings(run, A):
                 if ok_chain and L is not None:
                     rng = L.iter
                     ok_chain = is_call_to(rng, 'builtin.range') and const_val(call_arg(rng, 0)) == 1 and len(call_parts(rng)[1]) == 2
-    run.check(ok and ok_app, 'R-PERM', 'Greedy aligner: identity column prepended to the adjacent-bin assignments', fn.loc(), '',
-              'mapping is not np.append(arange(K)[:, None], _mapping_from_score_matrix(...), axis=-1)', construct=f'R-PERM::{q}::append-identity')
-    run.check(ok_chain, 'R-PERM', 'Greedy aligner: mapping[:, f] = mapping[mapping[:, f-1], f] for f = 1..F-1 (composition with the composed predecessor)', fn.loc(), '',
-              'the recursive composition of adjacent-bin assignments is broken (not composed with column f-1 of the running mapping, or not in increasing f from 1)',
-              construct=f'R-PERM::{q}::composition')
+    if True:
+        run.check(ok and ok_app, 'R-PERM', 'Greedy aligner: identity column prepended to the adjacent-bin assignments', fn.loc(), '',
+                  'mapping is not np.append(arange(K)[:, None], _mapping_from_score_matrix(...), axis=-1)', construct=f'R-PERM::{q}::append-identity')
+        run.check(ok_chain, 'R-PERM', 'Greedy aligner: mapping[:, f] = mapping[mapping[:, f-1], f] for f = 1..F-1 (composition with the composed predecessor)', fn.loc(), '',
+                  'the recursive composition of adjacent-bin assignments is broken (not composed with column f-1 of the running mapping, or not in increasing f from 1)',
+                  construct=f'R-PERM::{q}::composition')
     # ---- oracle
     q = P + 'OraclePermutationAlignment.calculate_mapping'
     fn = A.prog.func(q)
@@ -590,8 +619,11 @@ def check_optimal_and_inline_pa(run, A):
                     rows_ok = is_call_to(rows, 'builtin.range', 'numpy.arange') and len(call_parts(rows)[1]) == 1 and dom is not None \
                         and strip_views(call_parts(rows)[1][0]) is dom
                     oko = rows_ok and col.op == 'elem' and col.extra is L
-    run.check(oko, 'R-SEL', 'optimal assignment: objective sum_k score[k, perm[k]] (row k -> column perm[k])', fn.loc(), '', 'objective is not the sum over rows k of score[k, permutation[k]]',
-              construct=f'R-SEL::{q}::objective')
+    if not oko and reps and isinstance(reps[0].get('cand'), T) and strip_views(reps[0]['cand']).op == 'mu':
+        run.unresolved('R-SEL', 'optimal assignment: objective sum_k score[k, perm[k]] (row k -> column perm[k])', fn.loc(), 'the objective is accumulated in an inner loop')
+    else:
+        run.check(oko, 'R-SEL', 'optimal assignment: objective sum_k score[k, perm[k]] (row k -> column perm[k])', fn.loc(), '', 'objective is not the sum over rows k of score[k, permutation[k]]',
+                  construct=f'R-SEL::{q}::objective')
     check_inline_pa(run, A)
 
 
